@@ -5,6 +5,7 @@ import (
 	"encoding/hex"
 	"fmt"
 	"sync"
+	"sync/atomic"
 	"time"
 
 	"github.com/pingcap/kvproto/pkg/errorpb"
@@ -34,25 +35,26 @@ const (
 	DropRespSlow Fate = "drop-resp-to" // executed, caller runs into its timeout
 	Dup          Fate = "dup"          // executed twice, first answer returned
 	Delay        Fate = "delay"        // long latency before execution
+	Stall        Fate = "stall"        // very long latency (seconds): locks outlive their ttl meanwhile
 	CrashBefore  Fate = "crash-before" // the client dies; this request never leaves it
 	CrashAfter   Fate = "crash-after"  // this request executes; the client dies before the answer
 	// region errors synthesised without executing the request
-	RENotLeader       Fate = "re-not-leader"
-	RENotLeaderHint   Fate = "re-not-leader-hint"
-	REEpochNotMatch   Fate = "re-epoch-not-match"
-	REServerIsBusy    Fate = "re-server-busy"
-	REStaleCommand    Fate = "re-stale-command"
-	RERegionNotFound  Fate = "re-region-not-found"
-	REMaxTSNotSynced  Fate = "re-max-ts-not-synced"
-	REDiskFull        Fate = "re-disk-full"
-	REUndetermined    Fate = "re-undetermined"
-	REDataNotReady    Fate = "re-data-not-ready"
-	REStoreNotMatch   Fate = "re-store-not-match"
-	RERaftTooLarge    Fate = "re-raft-entry-too-large"
-	REUnknown         Fate = "re-unknown"
-	TopoSplit         Fate = "topo-split"     // split the target region first, then execute
-	TopoLeader        Fate = "topo-leader"    // move the leader first, then execute
-	TopoSplitAfter    Fate = "topo-split-aft" // execute, then split (response still delivered)
+	RENotLeader      Fate = "re-not-leader"
+	RENotLeaderHint  Fate = "re-not-leader-hint"
+	REEpochNotMatch  Fate = "re-epoch-not-match"
+	REServerIsBusy   Fate = "re-server-busy"
+	REStaleCommand   Fate = "re-stale-command"
+	RERegionNotFound Fate = "re-region-not-found"
+	REMaxTSNotSynced Fate = "re-max-ts-not-synced"
+	REDiskFull       Fate = "re-disk-full"
+	REUndetermined   Fate = "re-undetermined"
+	REDataNotReady   Fate = "re-data-not-ready"
+	REStoreNotMatch  Fate = "re-store-not-match"
+	RERaftTooLarge   Fate = "re-raft-entry-too-large"
+	REUnknown        Fate = "re-unknown"
+	TopoSplit        Fate = "topo-split"     // split the target region first, then execute
+	TopoLeader       Fate = "topo-leader"    // move the leader first, then execute
+	TopoSplitAfter   Fate = "topo-split-aft" // execute, then split (response still delivered)
 )
 
 // IsRegionErr reports whether f is a synthesised region error.
@@ -105,16 +107,19 @@ type Net struct {
 	MinLatency time.Duration
 	Jitter     time.Duration
 
-	mu      sync.Mutex
-	trace   []*RPCRecord
-	cut     map[int]chan struct{}
-	cutAt   map[int]uint64
-	ordinal map[int]int
-	mark    map[int]string
-	markOrd map[int]int
-	lat     *Hasher
-	fault   *Hasher
-	Fired   []FiredFault
+	mu         sync.Mutex
+	trace      []*RPCRecord
+	cut        map[int]chan struct{}
+	cutAt      map[int]uint64
+	ordinal    map[int]int
+	mark       map[int]string
+	markOrd    map[int]int
+	tsoOrd     map[int]int
+	lat        *Hasher
+	fault      *Hasher
+	Fired      []FiredFault
+	inflight   atomic.Int64
+	lastSubmit atomic.Int64
 	// Describe renders the cluster layout for diagnostics.
 	Describe func() string
 	// Panics of the backend's handlers (e.g. the mock's "key not in region").
@@ -144,9 +149,15 @@ func NewNet(s *Sim, b Backend) *Net {
 		ordinal:    map[int]int{},
 		mark:       map[int]string{},
 		markOrd:    map[int]int{},
+		tsoOrd:     map[int]int{},
 		lat:        NewHasher(s.Seed, "latency"),
 		fault:      NewHasher(s.Seed, "fault"),
 	}
+}
+
+// Quiet reports whether no RPC is in flight and none was submitted during the last d of simulated time.
+func (n *Net) Quiet(d time.Duration) bool {
+	return n.inflight.Load() == 0 && n.Sim.Now()-time.Duration(n.lastSubmit.Load()) >= d
 }
 
 // Trace returns the RPC trace so far.
@@ -156,11 +167,31 @@ func (n *Net) Trace() []*RPCRecord {
 	return append([]*RPCRecord(nil), n.trace...)
 }
 
+// TSOFate is consulted by the simulated PD for every TSO request of client c: a
+// plan entry "tso:<client>:<mark>+<n>" can crash the client at that point.
+func (n *Net) TSOFate(c int) Fate {
+	n.mu.Lock()
+	key := fmt.Sprintf("tso:%d:%s+%d", c, n.mark[c], n.tsoOrd[c])
+	n.tsoOrd[c]++
+	f, ok := n.Plan[key]
+	n.mu.Unlock()
+	if ok && (f == CrashBefore || f == CrashAfter) {
+		n.mu.Lock()
+		n.Fired = append(n.Fired, FiredFault{Key: key, Fate: f, Cmd: "TSO"})
+		n.cutLocked(c)
+		n.mu.Unlock()
+		n.Sim.Count("fault." + string(f) + ".tso")
+		return f
+	}
+	return Deliver
+}
+
 // SetMark names the phase client c is in; RPC ordinals restart at the marker.
 func (n *Net) SetMark(c int, mark string) {
 	n.mu.Lock()
 	n.mark[c] = mark
 	n.markOrd[c] = 0
+	n.tsoOrd[c] = 0
 	n.mu.Unlock()
 }
 
@@ -430,8 +461,20 @@ func (n *Net) fired(key string, rec *RPCRecord) {
 // decides what happens to it.
 func (c *Conn) SendRequest(ctx context.Context, addr string, req *tikvrpc.Request, timeout time.Duration) (*tikvrpc.Response, error) {
 	n := c.Net
+	if req.Type == tikvrpc.CmdStoreSafeTS {
+		// periodic background probe of every store by every client; irrelevant to all checked
+		// properties, answered in place to keep the event stream small
+		if n.IsCut(c.ID) {
+			return nil, ErrSimCut
+		}
+		return &tikvrpc.Response{Resp: &kvrpcpb.StoreSafeTSResponse{}}, nil
+	}
 	// the wire hop of the real client
 	tikvrpc.AttachContext(req, req.Context)
+	// The caller's *tikvrpc.Request is pooled by the v1 codec and reused as soon as the call
+	// returns; the network keeps its own copy of the message, as a real wire would.
+	snap := *req
+	req = &snap
 
 	n.mu.Lock()
 	rec := &RPCRecord{ID: len(n.trace), Client: c.ID, Addr: addr, Type: req.Type, Req: req}
@@ -447,6 +490,9 @@ func (c *Conn) SendRequest(ctx context.Context, addr string, req *tikvrpc.Reques
 	rec.Occ = n.Sim.Occ(rec.Identity)
 	rec.SubmitSeq = n.Sim.Stamp()
 	rec.SubmitAt = n.Sim.Now()
+	n.inflight.Add(1)
+	n.lastSubmit.Store(int64(rec.SubmitAt))
+	defer n.inflight.Add(-1)
 
 	select {
 	case <-cutCh:
@@ -475,6 +521,11 @@ func (c *Conn) SendRequest(ctx context.Context, addr string, req *tikvrpc.Reques
 	lat := n.latency(idk, "req")
 	if rec.Fate == Delay {
 		lat += time.Duration(50+n.lat.Intn("delay"+idk, 3000)) * time.Millisecond
+		n.fired(fkey, rec)
+	}
+	if rec.Fate == Stall {
+		lat += time.Duration(4000+n.lat.Intn("stall"+idk, 30000)) * time.Millisecond
+		n.fired(fkey, rec)
 	}
 	tie := n.lat.U64("tie" + idk)
 	n.Sim.Submit("rpc:"+idk, lat, tie, func() { n.arrive(rec, fkey, ch, ctx) })
@@ -526,7 +577,7 @@ func (n *Net) arrive(rec *RPCRecord, fkey string, ch chan rpcResult, ctx context
 		n.Sim.Submit("resp:"+idk, n.latency(idk, "resp")+extra, n.lat.U64("rtie"+idk), func() { ch <- r })
 	}
 	switch f := rec.Fate; {
-	case f == Deliver || f == Delay:
+	case f == Deliver || f == Delay || f == Stall:
 		n.exec(rec)
 		respond(rpcResult{rec.Resp, rec.ExecErr}, 0)
 	case f == DropReq:
